@@ -553,3 +553,10 @@ M('C10', 'queue-upper-clamp-removed', S, "        elif index >= int(self.num_col
 M('C12', 'reader-filters-frequency', SB, "                    if k == \"rule_frequency\":\n                        rule_frequency = v", "                    if k == \"rule_frequency\":\n                        if v in ('repeated', 'dt') or v.isdigit():\n                            rule_frequency = v", 'fire', 'R12.1-rule-frequency')
 M('C12', 'reader-drops-numeric-propensity-values', SB, "                    try:\n                        propensity_params[k] = float(v)\n                    except ValueError:\n                        propensity_params[k] = v",
   "                    try:\n                        propensity_params[k] = float(v)\n                    except ValueError:\n                        if k != 'n':\n                            propensity_params[k] = v", 'fire', 'R12.1-separators/propensity')
+
+# ------------------------------------------------------------------ behaviour-preserving refactorings written by independent agents (must stay silent)
+for _patch, _props in (('refactors/R3/patch.diff', ('C04', 'C05', 'C06', 'C07', 'C09', 'C10', 'C11')),
+                       ('refactors/R4/patch.diff', ('C05', 'C06', 'C07', 'C08', 'C19', 'C20')),
+                       ('refactors/R6/patch.diff', ('C15', 'C16', 'C18'))):
+    for _p in _props:
+        MUTANTS.append({'prop': _p, 'name': 'refactor-' + _patch.split('/')[1], 'kind': 'silent', 'patch': _patch})
